@@ -35,7 +35,10 @@
 (*  {"e":"fault","kind":"noroom"|"room"}  the log file system has no room  *)
 (*      from now on / has room again; {"e":"fault","kind":"blind"|         *)
 (*      "unblind"}  the dump directory holds an entry that cannot be       *)
-(*      stat()ed from now on / no longer.  Environment lines change no     *)
+(*      stat()ed from now on / no longer; "lblind"|"lunblind": the same    *)
+(*      for the directory of the rolling logs (an archive of the other     *)
+(*      logger of the folder vanishing between read_dir and stat, a        *)
+(*      dangling link) while writes roll.  Environment lines change no     *)
 (*      file; every bound keeps being evaluated unchanged under them.      *)
 (*  {"e":"fault","kind":"pin"|"unpin"}   the environment makes the rename  *)
 (*      of the current log file fail from now on / no longer               *)
@@ -67,7 +70,7 @@ tvars == <<vars, l, conf, files>>
 NoConf == [maxCount |-> 0, limit |-> 0, cap |-> 0, maxDumps |-> 0]
 
 TInit == /\ l = 1 /\ conf = NoConf /\ files = <<>>
-         /\ arch = <<>> /\ cur = -1 /\ lw = 0 /\ rolled = FALSE /\ logLegal = TRUE /\ debt = 0 /\ rollFails = FALSE /\ noRoom = FALSE
+         /\ arch = <<>> /\ cur = -1 /\ lw = 0 /\ rolled = FALSE /\ logLegal = TRUE /\ debt = 0 /\ rollFails = FALSE /\ noRoom = FALSE /\ logBlind = FALSE
          /\ evFiles = 0 /\ evTmp = 0 /\ evQueue = 0 /\ evRun = TRUE /\ evLegal = TRUE
          /\ dumps = <<>> /\ nextId = 0 /\ dLegal = TRUE /\ dWritten = FALSE /\ listFails = FALSE
 
@@ -94,7 +97,7 @@ Reset ==
   /\ conf' = [maxCount |-> Rec[l].maxCount, limit |-> Rec[l].limit, cap |-> Rec[l].cap, maxDumps |-> Rec[l].maxDumps]
   /\ files' = Rec[l].files
   /\ Project(files')
-  /\ rolled' = FALSE /\ debt' = 0 /\ rollFails' = FALSE /\ noRoom' = FALSE /\ listFails' = FALSE
+  /\ rolled' = FALSE /\ debt' = 0 /\ rollFails' = FALSE /\ noRoom' = FALSE /\ logBlind' = FALSE /\ listFails' = FALSE
   /\ logLegal' = (Len(ArchOf(files')) + 1 <= Rec[l].maxCount)
   /\ evFiles' = Rec[l].ev /\ evTmp' = 0 /\ evQueue' = 0 /\ evRun' = TRUE /\ evLegal' = (Rec[l].ev <= Rec[l].cap)
   /\ dumps' = Rec[l].dumps /\ nextId' = 0 /\ dLegal' = (Len(Rec[l].dumps) <= Rec[l].maxDumps) /\ dWritten' = FALSE
@@ -108,7 +111,7 @@ Write ==
   /\ LET roll == CurId(files) # 0 /\ CurId(files') # 0 /\ CurId(files') # CurId(files)    \* a completed roll
      IN /\ rolled' = (rolled \/ roll)
         /\ debt' = IF roll THEN 0 ELSE debt
-  /\ UNCHANGED <<conf, logLegal, rollFails, noRoom, evVars, dumpVars>>
+  /\ UNCHANGED <<conf, logLegal, rollFails, noRoom, logBlind, evVars, dumpVars>>
   /\ l' = l + 1
 
 \* the run was killed inside a roll and restarted: the directory is found anew (no roll completed since); one more
@@ -119,7 +122,7 @@ Killed ==
   /\ Project(files')
   /\ rolled' = FALSE /\ debt' = debt + 1
   /\ evRun' = TRUE
-  /\ UNCHANGED <<conf, logLegal, rollFails, noRoom, evFiles, evTmp, evQueue, evLegal, dumpVars>>
+  /\ UNCHANGED <<conf, logLegal, rollFails, noRoom, logBlind, evFiles, evTmp, evQueue, evLegal, dumpVars>>
   /\ l' = l + 1
 
 \* the environment switches one of its faults on / off: no file changes
@@ -127,6 +130,7 @@ Fault ==
   /\ l <= Len(Rec) /\ Rec[l].e = "fault"
   /\ rollFails' = CASE Rec[l].kind = "pin" -> TRUE [] Rec[l].kind = "unpin" -> FALSE [] OTHER -> rollFails
   /\ noRoom' = CASE Rec[l].kind = "noroom" -> TRUE [] Rec[l].kind = "room" -> FALSE [] OTHER -> noRoom
+  /\ logBlind' = CASE Rec[l].kind = "lblind" -> TRUE [] Rec[l].kind = "lunblind" -> FALSE [] OTHER -> logBlind
   /\ listFails' = CASE Rec[l].kind = "blind" -> TRUE [] Rec[l].kind = "unblind" -> FALSE [] OTHER -> listFails
   /\ UNCHANGED <<conf, files, arch, cur, lw, rolled, logLegal, debt, evVars, dumps, nextId, dLegal, dWritten>>
   /\ l' = l + 1
@@ -155,7 +159,7 @@ TRestart ==
   /\ l <= Len(Rec) /\ Rec[l].e = "restart"
   /\ files' = Carry(Rec[l].files, 0)
   /\ Project(files')
-  /\ UNCHANGED <<conf, rolled, logLegal, debt, rollFails, noRoom, evVars, dumpVars>>
+  /\ UNCHANGED <<conf, rolled, logLegal, debt, rollFails, noRoom, logBlind, evVars, dumpVars>>
   /\ l' = l + 1
 
 TNext == Reset \/ Write \/ Killed \/ Fault \/ Ev \/ Dump \/ TRestart
